@@ -48,7 +48,7 @@ var (
 		"gobin":  {"app", "tool", "server"},
 	}
 	langDirs = map[string][]string{
-		"python": {"usr/local/lib/python3.11/site-packages", "opt/venv/lib/python3.11/site-packages"},
+		"python": {"usr/local/lib/python3.11/site-packages", "opt/venv/lib/python3.11/site-packages", "srv/.venv/lib/python3.11/site-packages"},
 		"nodejs": {"usr/local/lib/node_modules", "app/node_modules", "app/node_modules/express/node_modules"},
 		"ruby":   {"usr/local/bundle/specifications", "var/lib/gems/3.1.0/specifications"},
 		"java":   {"opt/app/lib", "usr/share/java"},
@@ -433,8 +433,17 @@ func (g *e2eGen) step() {
 			g.dropLangUnder(dir)
 			g.op("rm -rf %s && mkdir %s (opaque)", dir, dir)
 		}
-	case c < 17: // unrelated files
+	case c < 17: // unrelated files (some with names that look a little like whiteouts but are not)
 		p := fmt.Sprintf("srv/data/file%d.txt", g.rnd.Intn(4))
+		if g.rnd.Chance(1, 8) && g.dpkg == nil && g.apk == nil && g.rpm == nil && !b.exists("etc/os-release") {
+			// an image that ships a release file but no package database (FROM scratch + COPY)
+			b.put("etc/os-release", debianOSRelease("12", "bookworm"))
+			g.op("write etc/os-release (debian 12), no package database")
+			return
+		}
+		if g.rnd.Chance(1, 3) {
+			p = []string{"zz/notes.wh.txt", "zz/x.wh..wh..opq.bak", "zz/wh.keep", "zz/a.wh.b/readme", "zz/_.wh.", "zz/.whx"}[g.rnd.Intn(6)]
+		}
 		if b.exists(p) && g.rnd.Chance(1, 2) && g.canRemove() {
 			b.rm(p)
 			g.op("rm %s", p)
@@ -512,9 +521,19 @@ func (g *e2eGen) wildStep() {
 				g.op("python: install %s %s into usr/lib/python3/dist-packages", name, ver)
 			}
 		}
-	case 4: // two removals in one layer
+	case 4: // two removals in one layer (when possible the second next to the first)
+		var firstDir string
 		for k := 0; k < 2 && len(g.lang) > 0; k++ {
 			x := g.lang[g.rnd.Intn(len(g.lang))]
+			if k == 0 {
+				firstDir = path.Dir(x.Root)
+			} else {
+				for _, y := range g.lang {
+					if path.Dir(y.Root) == firstDir {
+						x = y
+					}
+				}
+			}
 			b.rm(x.Root)
 			g.dropLangUnder(x.Root)
 			g.op("%s: remove %s %s (%s)", x.Eco, x.Name, x.Version, x.Root)
@@ -687,6 +706,7 @@ func runScenario(r *hx.Run, sc *scenario) {
 		r.Count(fmt.Sprintf("e2e:max-whiteouts-per-layer:%d", bucket(n)))
 	}
 	checkE2EWellformed(r, sc, idx, digests, witness)
+	checkWhiteoutScan(r, sc, idx, digests, witness)
 	opIndexFromStore(r, idx, digests)
 	opFlat(r, sc.layers, flat)
 	// inside the hypothesis Tame of index_eq_flatten_partial (evaluated on the abstraction of this
@@ -901,6 +921,20 @@ func checkDists(r *hx.Run, sc *scenario, idx, fl indexResult, em e2eModel, witne
 		}
 		return out
 	}
+	// the distributions themselves
+	names := func(ir *claircore.IndexReport) string {
+		var xs []string
+		for _, d := range ir.Distributions {
+			xs = append(xs, distName(d))
+		}
+		return strings.Join(sortDedup(xs), ",")
+	}
+	if x, y := names(idx.Report), names(fl.Report); x != y {
+		r.Fail("", witness(fmt.Sprintf("distributions of the report: layered index has {%s}, index of the flattened image has {%s}", x, y)))
+		return
+	} else if x != "" {
+		r.Count("e2e:dist:report-distributions-compared")
+	}
 	a, b := view(idx.Report), view(fl.Report)
 	n := 0
 	for t, da := range a {
@@ -952,6 +986,34 @@ func maxWhiteouts(ls []layerFS) int {
 		}
 	}
 	return m
+}
+
+// checkWhiteoutScan: whiteout/scanner.go on every layer — the files it stored are exactly the layer's
+// entries whose base name starts with ".wh." (model: `whiteoutsOf`), all of kind whiteout.
+func checkWhiteoutScan(r *hx.Run, sc *scenario, idx indexResult, digests []string, witness func(string) string) {
+	ctx := context.Background()
+	ecos := ecosystems(ctx)
+	fscn, _ := ecos[len(ecos)-1].FileScanners(ctx)
+	var vs indexer.VersionedScanners
+	vs.FStoVS(fscn)
+	for i, d := range digests {
+		fi, _ := idx.Store.FilesByLayer(ctx, claircore.MustParseDigest(d), vs)
+		var got []string
+		for _, f := range fi {
+			got = append(got, f.Path)
+			if f.Kind != claircore.FileKindWhiteout {
+				r.Fail("", witness(fmt.Sprintf("whiteout scanner: layer %d: file %s has kind %q", i, f.Path, f.Kind)))
+			}
+		}
+		sort.Strings(got)
+		want := sc.layers[i].whiteouts()
+		if strings.Join(got, "\n") != strings.Join(want, "\n") {
+			r.Fail("", witness(fmt.Sprintf("whiteout scanner: layer %d holds the whiteout entries %q, the scanner stored %q", i, want, got)))
+		}
+		if len(want) > 0 {
+			r.Count("e2e:whiteout-scan:layer-with-whiteouts")
+		}
+	}
 }
 
 // checkE2EWellformed: second sentence of the property on the finished report
